@@ -37,6 +37,7 @@ type LFile struct {
 	Test     bool       `json:"test,omitempty"`       // _test.go: ignored
 	Excluded bool       `json:"excluded,omitempty"`   // //go:build false under {goat}
 	Cons     string     `json:"constraint,omitempty"` // the //go:build line, if any
+	Lead     string     `json:"lead,omitempty"`       // blank lines / indentation before it
 	Vers     []LFileVer `json:"versions"`
 }
 
@@ -55,8 +56,11 @@ type LWorld struct {
 	Conflict bool    `json:"conflict,omitempty"`
 }
 
-var wDomains = []string{"", "", "a/", "example.com/x/", "github.com/u/r/", "deep/er/path/"}
-var wFileNames = []string{"a.go", "b.go", "z.go", "0.go", "main.go", "x_1.go", "util.go", "A.go", "m-n.go", "lib.go", "q.go", "_u.go"}
+var wDomains = []string{"", "", "a/", "example.com/x/", "github.com/u/r/", "deep/er/path/", "db_testutil/", "x_test/y/"}
+var wFileNames = []string{"a.go", "b.go", "z.go", "0.go", "main.go", "x_1.go", "util.go", "A.go", "m-n.go", "lib.go", "q.go", "_u.go", "a_testdata.go", "zz_test_hooks.go", "tester.go", "my_test.go.go"}
+
+// what may precede a //go:build line without changing its meaning
+var wConsLead = []string{"", "", "", "\n", "\n\n", "  ", "\t", " \n\t"}
 
 // constraint expressions with their value under {goat: true, everything else false}
 var wConsTrue = []string{"goat", "!linux", "goat || linux", "goat && !ignore", "!(linux && goat)", "!ignore", "goat || ignore", "(goat)"}
@@ -159,6 +163,7 @@ func GenWorld(r *core.PRNG, o WorldOpts) *LWorld {
 			lf := &LFile{Name: wFileNames[names[f]]}
 			if r.Chance(1, 5) {
 				lf.Cons = "//go:build " + core.Pick(r, wConsTrue)
+				lf.Lead = core.Pick(r, wConsLead)
 			}
 			p.Files = append(p.Files, lf)
 		}
@@ -195,7 +200,7 @@ func GenWorld(r *core.PRNG, o WorldOpts) *LWorld {
 				p.Files = append(p.Files, lf)
 			}
 			if r.Chance(1, 2) {
-				lf := &LFile{Name: core.Pick(r, []string{"excl.go", "c_linux.go", "aa.go", "zz.go"}), Excluded: true, Cons: "//go:build " + core.Pick(r, wConsFalse)}
+				lf := &LFile{Name: core.Pick(r, []string{"excl.go", "c_linux.go", "aa.go", "zz.go"}), Excluded: true, Cons: "//go:build " + core.Pick(r, wConsFalse), Lead: core.Pick(r, wConsLead)}
 				for v := 0; v < o.Versions; v++ {
 					lf.Vers = append(lf.Vers, w.genFile(r, p, lf, 91, v, nil, useHost, true, false, false))
 				}
@@ -219,7 +224,7 @@ func (w *LWorld) genFile(r *core.PRNG, p *LPkg, lf *LFile, fidx, ver int, deps [
 	var fv LFileVer
 	var lines []string
 	if lf.Cons != "" {
-		lines = append(lines, lf.Cons, "")
+		lines = append(lines, lf.Lead+lf.Cons, "")
 	}
 	name := p.Name
 	if conflict {
